@@ -172,21 +172,20 @@ def rule_MK4(ctx, rep):
             rep.ok('MK4', fo, e.payload, 'payload is this party\'s own share')
         else:
             rep.bad('MK4', fo, e.node, 'payload of the output message is not marshal(own share)')
-    # receive/recombine only under `self.pid in receivers`; else-branch yields None
+    # receive/recombine only under `self.pid in receivers`; the other parties obtain None for every element
+    from . import cond
     rec = [c for c in iter_nodes(fo.node) if isinstance(c, ast.Call) and isinstance(c.func, ast.Name) and c.func.id == 'recombine']
     recvs = [e for e in evs if e.kind == 'recv']
-    gate = None
-    for i, br in enclosing_ifs(rec[0], pm, stop=fo.node) if rec else []:
-        if cnorm(i.test) == cnorm_text('self.pid in receivers') and br == 'body':
-            gate = i
-    if gate is not None and all(('In', 'R', 'receivers') in cases[sorted(cases)[0]][id(r)] for r in recvs):
-        rep.ok('MK4', fo, gate.test, 'shares are collected and recombined only by receivers')
-        els = gate.orelse
-        good = len(els) == 1 and isinstance(els[0], ast.Assign) and isinstance(els[0].value, ast.BinOp) and norm(els[0].value.left) == '[None]'
-        if good:
-            rep.ok('MK4', fo, els[0], 'non-receivers obtain None for every element')
+    member = cond.formula(fo, ast.parse('self.pid in receivers', mode='eval').body, fo.node.body[-1], pm)
+    gated = bool(rec) and not cond.satisfiable(cond.conj([cond.context(fo, rec[0], pm), cond.neg(member)]))
+    if gated and all(('In', 'R', 'receivers') in cases[sorted(cases)[0]][id(r)] for r in recvs):
+        rep.ok('MK4', fo, rec[0], 'shares are collected and recombined only by receivers')
+        nones = [s_ for s_ in iter_nodes(fo.node) if isinstance(s_, ast.Assign) and isinstance(s_.value, ast.BinOp) and isinstance(s_.value.op, ast.Mult)
+                 and norm(s_.value.left) == '[None]' and cond.equivalent(cond.project(cond.context(fo, s_, pm), lambda a: 'receivers' in a), cond.neg(member))]
+        if nones:
+            rep.ok('MK4', fo, nones[0], 'non-receivers obtain None for every element')
         else:
-            rep.bad('MK4', fo, gate, 'the non-receiver branch of output does not simply yield None values')
+            rep.bad('MK4', fo, rec[0], 'the non-receiver branch of output does not simply yield None values')
     else:
         rep.bad('MK4', fo, rec[0] if rec else fo.qualname, 'recombination in output is not restricted to `self.pid in receivers`', fo.node)
     # transfer
